@@ -140,7 +140,8 @@ def make_case(unit):
         if kind.startswith("mr"):
             rows = ("mr", g.mr(N, n_items=3, p_missing=0.1))
         else:
-            rv = g.cat(N, n_valid=g.r.randint(2, 4), n_missing=1, numeric="all", p_zero=0.05,
+            rv = g.cat(N, n_valid=g.r.randint(2, 4), n_missing=1,
+                       numeric=g.pick(["all", "some", "some"]), p_zero=0.05,
                        reorder=False)
             rows = ("cat", rv)
             if "+ins" in kind:
